@@ -1491,6 +1491,32 @@ fn bases(rng: &mut Rng, n: usize) -> String {
     (0..n).map(|_| b"ACGT"[rng.below(4) as usize] as char).collect()
 }
 
+/// several symbolic alleles of different <DEL>-like types (sometimes a base allele or, for 4.5,
+/// an <INS> among them) with one SVLEN value each: the largest value `l` stands first, in the
+/// middle or last, the others are in 1..=l; 4.3 writes <DEL> lengths negative
+fn multi_sv(rng: &mut Rng, l: u64, version: u32, del_like: &[&str]) -> (Vec<String>, Vec<Option<i32>>) {
+    let n = rng.range(2, 4) as usize;
+    let p = match rng.below(3) {
+        0 => 0,
+        1 => n - 1,
+        _ => n / 2,
+    };
+    let mut alts = Vec::new();
+    let mut sv = Vec::new();
+    for k in 0..n {
+        if k != p && rng.chance(1, 6) {
+            alts.push(bases(rng, 1));
+            sv.push(None);
+            continue;
+        }
+        let a = if k != p && version >= 45 && rng.chance(1, 6) { "<INS>" } else { *rng.pick(del_like) };
+        let x = if k == p { l } else { rng.range(1, l.max(1)) } as i32;
+        sv.push(Some(if version == 43 && a.starts_with("<DEL") { -x } else { x }));
+        alts.push(a.to_string());
+    }
+    (alts, sv)
+}
+
 fn gen_vcf(rng: &mut Rng, opts: &str) -> VcfFile {
     let pr = profile(opts);
     let version: u32 = opt(opts, "v").and_then(|s| s.parse().ok()).unwrap_or(43);
@@ -1568,6 +1594,11 @@ fn gen_vcf(rng: &mut Rng, opts: &str) -> VcfFile {
                             // multi-allelic: a base and a symbolic allele
                             r.alts = vec![bases(rng, 1), a.to_string()];
                             r.svlen = Some(vec![None, Some(signed)]);
+                        } else if l >= 1 && rng.chance(1, 3) {
+                            // control: INFO END governs whatever the (multi-valued, any order) SVLEN says
+                            let (alts, sv) = multi_sv(rng, l as u64, version, &del_like);
+                            r.alts = alts;
+                            r.svlen = Some(sv);
                         } else {
                             r.alts = vec![a.to_string()];
                             if rng.chance(4, 5) {
@@ -1607,11 +1638,29 @@ fn gen_vcf(rng: &mut Rng, opts: &str) -> VcfFile {
                     if rng.chance(1, 5) {
                         r.alts = vec![bases(rng, 1), a.to_string()];
                         r.svlen = Some(vec![None, Some(l as i32)]);
+                    } else if l >= 1 && rng.chance(1, 2) {
+                        // several alleles, the largest SVLEN first / in the middle / last: both rules
+                        // take the maximum over the values
+                        let (alts, sv) = multi_sv(rng, l, version, &del_like);
+                        r.alts = alts;
+                        r.svlen = Some(sv);
                     } else {
                         r.alts = vec![a.to_string()];
                         r.svlen = Some(vec![Some(l as i32)]);
                     }
                     r.nd_end = s + l.max(1) - 1;
+                    if l >= 1 && rng.chance(1, 3) {
+                        // SVLEN together with FORMAT LEN (a <*> allele, SVLEN missing for it): below
+                        // the SVLEN span it changes nothing, beyond it it gives the end under both rules
+                        r.alts.push("<*>".into());
+                        if let Some(sv) = r.svlen.as_mut() {
+                            sv.push(None);
+                        }
+                        let x = if rng.chance(1, 2) { rng.range(1, l) } else { (l + 1 + rng.below(3000)).min((*len).min(maxp) - s + 1) };
+                        r.len = Some(x as i32);
+                        r.spec_end = (s + l).max(s + x - 1);
+                        r.nd_end = s + l.max(x) - 1;
+                    }
                     if r.nd_end != r.spec_end {
                         r.cls = TAG_DEL45;
                     }
